@@ -202,7 +202,20 @@ Definition run_codegen_a64 : string -> string := run_cases codegen_a64_case.
    are in Model/RunHeapA64.v *)
 (* ---------- C14: assembler-level well-formedness of the implementation's output ---------- *)
 From SCC Require Import Sem.A64Wf Sem.LabelGuard.
+From SCC Require Sem.WfGuard Sem.WfGuard64.
 Open Scope string_scope.
+(* is the program inside ALL hypotheses of the theorem Props/C14.v C14_a64_compile_asm_wf (Sem/WfGuard64.v)?  Tag
+   `thm` / `out:<first hypothesis that fails>`; `small-thm` when inside C14_a64_compile_code_small.  A program inside the
+   hypotheses whose REAL output fails asm_wf (resp. the size bound) contradicts the theorem: the model and the code
+   disagree - VIOL class=asm-wf-theorem-contradicted. *)
+Definition thm_tag_a64 (pp : option prog) : string :=
+  match pp with
+  | Some pp => (if WfGuard64.wf_guard_a64 pp then " thm" else " out:" ++ WfGuard64.guards_failed (WfGuard64.wf_guards_a64 pp))
+               ++ (if LinCheck.lin_check_prog pp && WfGuard.size_guard pp then " small-thm" else "")
+  | None => ""
+  end.
+Definition code_small_a64 (cs : list acode) : bool :=
+  Z.ltb (fold_right (fun c a => isize c + a)%Z 0%Z cs) (4611686018427387904 - CODE_BASE)%Z.
 Definition guard_tag (p : sexp) : string :=
   match g_prog p with
   | Some pp => (if labels_guard pp then " guard" else if name_digits pp then " name-digits" else " noguard")
@@ -217,14 +230,19 @@ Definition wf_a64_case (i r : sexp) : verdict :=
           match bad_label (defined_labels cs ++ flat_map referenced cs) with
           | Some l => VViol ("class=asm-ill-formed-a64 label is not an identifier: " ++ l)
           | None =>
+          let pp := g_prog p in
+          let inside := match pp with Some q => WfGuard64.wf_guard_a64 q | None => false end in
+          let inside_small := match pp with Some q => LinCheck.lin_check_prog q && WfGuard.size_guard q | None => false end in
           match asm_wf cs with
           | Some why =>
-              match first_dup (defined_labels cs), g_prog p with
+              if inside then VViol ("class=asm-wf-theorem-contradicted " ++ why) else
+              match first_dup (defined_labels cs), pp with
               | Some l, Some pp => if name_digits pp then VViol ("class=label-collision-name-digits " ++ why)
                                    else VViol ("class=asm-ill-formed-a64 " ++ why)
               | _, _ => VViol ("class=asm-ill-formed-a64 " ++ why)
               end
           | None =>
+              if inside_small && negb (code_small_a64 cs) then VViol "class=asm-wf-theorem-contradicted code not small" else
               let nlab := List.length (defined_labels cs) in
               let tag (b : bool) (s : string) := if b then " " ++ s else "" in
               VOk ("nt labels" ++ n_to_string (N.log2 (N.of_nat nlab + 1))
@@ -232,7 +250,7 @@ Definition wf_a64_case (i r : sexp) : verdict :=
                    ++ tag (has (fun c => match c with MOVK _ _ _ => true | _ => false end) cs) "movk"
                    ++ tag (has (fun c => match c with STR _ SP _ | LDR _ SP _ => true | _ => false end) cs) "spills"
                    ++ tag (has (fun c => match c with BL _ => true | _ => false end) cs) "print"
-                   ++ guard_tag p)
+                   ++ guard_tag p ++ thm_tag_a64 pp)
           end
           end
       | None => VBad "rust output unreadable"
